@@ -196,7 +196,10 @@ Definition ex_tx : list value :=
 Definition ex_block : list value :=
   [VMsg (Some ex_header); VMsgs [ex_tx; ex_tx]; VMsgs [[VBytes [97]; VBytes [0; 1]]]].
 
-Ltac solve_wt := vm_compute; repeat (first [exact I | reflexivity | split | (eexists; split; [reflexivity|]) | constructor]).
+Ltac wt_step := first [ exact I | reflexivity | split | (eexists; split; [vm_compute; reflexivity|]) | constructor ].
+Ltac solve_wt := unfold ex_block, ex_header, ex_tx, max_depth;
+  repeat (cbn [wt_struct wt_fields wt_field full full_field enc_pkg_blockchain_BlockHeader enc_pkg_blockchain_Block
+               enc_pkg_blockchain_Transaction enc_pkg_blockchain_BlockAsset enc_pkg_blockchain_AggregateCommit utf8_valid id_strops]; wt_step).
 
 Example C08_header_example :
   wt_struct id_strops schemas_env (Datatypes.S max_depth) enc_pkg_blockchain_BlockHeader ex_header /\
